@@ -73,6 +73,22 @@ Section Planner.
   Variable g : gschema.
   Variable pick : list string -> option string.
 
+  Definition included (n : node) : bool :=
+    match n with NField _ _ _ _ dirs _ _ => should_include dirs | NFrag _ _ _ => true end.
+
+  (** the service that resolves selection [n] of object [obj] when the plan is at service [cur];
+      __typename stays where it is; a fragment is an error (the query is flattened) *)
+  Definition target_of (obj cur : string) (n : node) : option (node * string) :=
+    match n with
+    | NField _ nm _ _ _ _ _ =>
+        if String.eqb nm "__typename" then Some (n, cur)
+        else match find_gfield g obj nm with
+             | None => None
+             | Some (_, owners) => option_map (pair n) (select_service g pick obj cur nm owners)
+             end
+    | NFrag _ _ _ => None
+    end.
+
   (** [plan_ty fuel ty sels svc] = (selections for [svc], sub-plans); planObject / planUnion / plan *)
   Fixpoint plan_ty (fuel : nat) (ty : rtype) (sels : list node) (svc : string) {struct fuel}
     : option (list node * list plan) :=
@@ -82,66 +98,39 @@ Section Planner.
         match ty with
         | RScalar => None
         | RObj obj =>
-            if existsb (fun n => negb (is_field n)) sels then None else
-            (* split: local selections and selections for other services *)
-            let split :=
-              fold_left (fun acc n =>
-                match acc with
-                | None => None
-                | Some (loc, others) =>
-                    match n with
-                    | NField al nm args ak dirs hs subs =>
-                        if negb (should_include dirs) then Some (loc, others)
-                        else if String.eqb nm "__typename" then Some (loc ++ [n], others)
-                        else match find_gfield g obj nm with
-                             | None => None
-                             | Some (_, owners) =>
-                                 match select_service g pick obj svc nm owners with
-                                 | None => None
-                                 | Some target =>
-                                     if String.eqb target svc then Some (loc ++ [n], others)
-                                     else Some (loc, add_to target n others)
-                                 end
-                             end
-                    | NFrag _ _ _ => None
-                    end
-                end) sels (Some ([], [])) in
-            match split with
+            (* every included selection with the service that will resolve it *)
+            match mapo (target_of obj svc) (filter included sels) with
             | None => None
-            | Some (loc, others) =>
+            | Some tagged =>
+                let loc := map fst (filter (fun p => String.eqb (snd p) svc) tagged) in
+                let other_names := sorted_names (map snd (filter (fun p => negb (String.eqb (snd p) svc)) tagged)) in
                 (* local selections, planned recursively *)
-                let local :=
-                  fold_left (fun acc n =>
-                    match acc, n with
-                    | Some (ss, afters), NField al nm args ak dirs hs subs =>
-                        if hs then
-                          let fty := if String.eqb nm "__typename" then Some RScalar
-                                     else option_map fst (find_gfield g obj nm) in
-                          match fty with
-                          | None => None
-                          | Some t =>
-                              match plan_ty fuel' t subs svc with
+                match mapo (fun n =>
+                        match n with
+                        | NField al nm args ak dirs hs subs =>
+                            if hs then
+                              let fty := if String.eqb nm "__typename" then Some RScalar
+                                         else option_map fst (find_gfield g obj nm) in
+                              match fty with
                               | None => None
-                              | Some (cs, cafters) =>
-                                  Some (ss ++ [NField al nm args ak [] true cs],
-                                        afters ++ map (push_step (SField al)) cafters)
+                              | Some t =>
+                                  match plan_ty fuel' t subs svc with
+                                  | None => None
+                                  | Some (cs, cafters) =>
+                                      Some (NField al nm args ak [] true cs, map (push_step (SField al)) cafters)
+                                  end
                               end
-                          end
-                        else Some (ss ++ [NField al nm args ak [] false []], afters)
-                    | _, _ => None
-                    end) loc (Some ([], [])) in
-                match local with
+                            else Some (NField al nm args ak [] false [], [])
+                        | NFrag _ _ _ => None
+                        end) loc with
                 | None => None
-                | Some (ss, afters) =>
-                    let other_names := sort_str (map fst others) in
+                | Some planned =>
+                    let ss := map fst planned in
+                    let afters := List.concat (map snd planned) in
                     match mapo (fun o =>
-                            match lookup o others with
+                            match plan_ty fuel' (RObj obj) (map fst (filter (fun p => String.eqb (snd p) o) tagged)) o with
+                            | Some (os, oafters) => Some (Plan [] o obj os oafters)
                             | None => None
-                            | Some osels =>
-                                match plan_ty fuel' (RObj obj) osels o with
-                                | Some (os, oafters) => Some (Plan [] o obj os oafters)
-                                | None => None
-                                end
                             end) other_names with
                     | None => None
                     | Some oplans =>
@@ -163,21 +152,21 @@ Section Planner.
                 then None else
                 let tn := NField "__typename" "__typename" (JObj []) "" [] false [] in
                 let frs := frags_of sels in
-                match fold_left (fun acc n =>
-                        match acc, n with
-                        | Some (seen, fs, afters), NFrag on _ body =>
-                            if existsb (String.eqb on) seen then None
-                            else if negb (existsb (String.eqb on) ms) then None
-                            else match plan_ty fuel' (RObj on) body svc with
-                                 | None => None
-                                 | Some (cs, cafters) =>
-                                     Some (on :: seen, fs ++ [NFrag on [] cs], afters ++ map (push_step (SType on)) cafters)
-                                 end
-                        | _, _ => None
-                        end) frs (Some ([], [], [])) with
-                | None => None
-                | Some (_, fs, afters) => Some (tn :: fields_of sels ++ fs, afters)
-                end
+                if negb (nodup_str (map n_alias frs)) then None
+                else if negb (forallb (fun n => existsb (String.eqb (n_alias n)) ms) frs) then None
+                else
+                  match mapo (fun n =>
+                          match n with
+                          | NFrag on _ body =>
+                              match plan_ty fuel' (RObj on) body svc with
+                              | None => None
+                              | Some (cs, cafters) => Some (NFrag on [] cs, map (push_step (SType on)) cafters)
+                              end
+                          | NField _ _ _ _ _ _ _ => None
+                          end) frs with
+                  | None => None
+                  | Some planned => Some (tn :: fields_of sels ++ map fst planned, List.concat (map snd planned))
+                  end
             end
         end
     end.
@@ -192,3 +181,69 @@ End Planner.
 
 (** Paths: Go appends a step while returning from each enclosing local selection and reverses the slice at
     the end (reversePaths); [push_step] conses on the way out, which gives the same outermost-first order. *)
+
+(** * Closedness of plans (statement side of subquery_closed; proofs in PlannerProofs.v) *)
+Definition owns (g : gschema) (svc ty f : string) : bool :=
+  match find_gfield g ty f with
+  | Some (_, owners) => existsb (String.eqb svc) owners
+  | None => false
+  end.
+
+(** [closed_node g svc ctx n]: selection [n], made on a value of type [ctx], only uses fields [svc] serves. *)
+Fixpoint closed_node (g : gschema) (svc : string) (ctx : rtype) (n : node) {struct n} : bool :=
+  match ctx, n with
+  | RObj ty, NField _ nm _ _ _ _ subs =>
+      String.eqb nm "__typename" ||
+      match find_gfield g ty nm with
+      | Some (rty, owners) => existsb (String.eqb svc) owners && forallb (closed_node g svc rty) subs
+      | None => false
+      end
+  | RUnion _, NField _ nm _ _ _ _ _ => String.eqb nm "__typename"
+  | RUnion _, NFrag on _ body => forallb (closed_node g svc (RObj on)) body
+  | _, _ => false
+  end.
+
+Fixpoint plan_closed (g : gschema) (p : plan) {struct p} : bool :=
+  match p with
+  | Plan _ svc ty sels after =>
+      forallb (closed_node g svc (RObj ty)) sels &&
+      (fix go (l : list plan) : bool := match l with [] => true | x :: t => plan_closed g x && go t end) after
+  end.
+
+
+(** ** the hypotheses as one decidable condition on the federation (evaluated by the harness on every
+    generated federation) *)
+Definition not_fed (n : node) : bool :=
+  match n with NField _ nm _ _ _ _ _ => negb (String.eqb nm federation_field) | NFrag _ _ _ => true end.
+
+Definition services_of (g : gschema) : list string :=
+  dedupe (List.concat (map (fun e => let '(_, _, _, o) := e in o) (g_fields g))).
+
+Definition fed_ok (g : gschema) : bool :=
+  (* a service that serves a field of a type has _federation on that type and on the objects the field returns *)
+  forallb (fun e => let '(ty, f, rty, owners) := e in
+     forallb (fun svc =>
+        owns g svc ty federation_field &&
+        ((String.eqb ty "Query" && String.eqb f federation_field) ||
+         match rty with
+         | RScalar => true
+         | RObj o => owns g svc o federation_field
+         | RUnion u => match union_members g u with
+                       | Some ms => forallb (fun m => owns g svc m federation_field) ms
+                       | None => false
+                       end
+         end)) owners &&
+     (* nothing returns the Query object *)
+     match rty with RObj o => negb (String.eqb o "Query") | _ => true end &&
+     (* _federation on an object returns that object (on Query it returns the Federation plumbing object) *)
+     (negb (String.eqb f federation_field) || String.eqb ty "Query" ||
+      match rty with RObj o => String.eqb o ty | _ => false end))
+    (g_fields g) &&
+  forallb (fun e => let '(ty, _, _) := e in negb (String.eqb ty "Query")) (g_fkeys g) &&
+  forallb (fun e => negb (existsb (String.eqb "Query") (snd e))) (g_unions g) &&
+  (* whoever has _federation on a type serves every field any service uses as a federated key of it *)
+  forallb (fun e => let '(ty, _, ks) := e in
+     forallb (fun svc => negb (owns g svc ty federation_field) || forallb (owns g svc ty) ks) (services_of g))
+    (g_fkeys g) &&
+  negb (existsb (String.eqb coordinator) (services_of g)).
+
